@@ -201,4 +201,118 @@ theorem dist_symbol_lt_alphabet (p ndirect dc : Nat) (hdc : 16 + ndirect ≤ dc)
 example : (prefixEncodeCopyDistance 67108864 12 2) = ⟨200, 22, 4194301⟩ := by decide
 example : rfcDistDecode 2 12 200 4194301 + 15 = 67108864 := by decide
 
+/-! ## recovering the distance code from the stored command fields -/
+
+theorem dist_nbits_le (p nd dc : Nat) (hdc : dc < 2 ^ 31) (hp : p ≤ 3) :
+    (prefixEncodeCopyDistance dc nd p).nbits ≤ 30 := by
+  unfold prefixEncodeCopyDistance
+  split
+  · simp
+  · simp only [short_codes_is_16]
+    have hpw : 2 ^ (p + 2) ≤ 2 ^ 5 := Nat.pow_le_pow_right (by decide) (by omega)
+    have hlt : 2 ^ (p + 2) + (dc - 16 - nd) < 2 ^ 32 := by
+      have : (2:Nat) ^ 5 = 32 := by decide
+      have : (2:Nat) ^ 31 = 2147483648 := by decide
+      have : (2:Nat) ^ 32 = 4294967296 := by decide
+      omega
+    have hne : 2 ^ (p + 2) + (dc - 16 - nd) ≠ 0 := by
+      have : 0 < 2 ^ (p + 2) := Nat.pow_pos (by decide)
+      omega
+    have := (Nat.log2_lt hne).mpr hlt
+    unfold log2Floor
+    omega
+
+/-- Recovering a distance code from a stored command returns the code it was built from:
+for every postfix-bit count, every number of direct codes the format allows and every
+distance code below 2^31 (the encoder's distances are below 2^31: `BROTLI_MAX_ALLOWED_DISTANCE`
+= 0x7fffffc), including the u16 / u32 packing of `dist_prefix_` / `dist_extra_`. -/
+theorem restore_inverts_encode (p nd dc : Nat) (hp : p ≤ 3) (hnd : nd ≤ 120) (hdc : dc < 2 ^ 31) :
+    restoreDistanceCode (prefixEncodeCopyDistance dc nd p).packed
+      (prefixEncodeCopyDistance dc nd p).extra32 nd p = dc := by
+  by_cases hs : dc < 16 + nd
+  · have := (dist_direct_exact p nd dc hs).1
+    rw [this]
+    simp only [DistCode.packed, DistCode.extra32]
+    have h1 : (0 * 1024 ||| dc) % 65536 = dc := by simp; omega
+    rw [h1]
+    unfold restoreDistanceCode
+    have : dc % 1024 = dc := by omega
+    simp [short_codes_is_16, this, hs]
+  · have hge : 16 + nd ≤ dc := by omega
+    obtain ⟨e1, e2, e3, e4, e5⟩ := dist_encode_exact p nd dc hge
+    have hnb := dist_nbits_le p nd dc hdc hp
+    have hsym := dist_symbol_lt_alphabet p nd dc hge 30 hnb
+    have hpw : 2 ^ (p + 1) ≤ 2 ^ 4 := Nat.pow_le_pow_right (by decide) (by omega)
+    have h16 : (2:Nat) ^ 4 = 16 := by decide
+    have hsym' : (prefixEncodeCopyDistance dc nd p).sym < 1024 := by
+      have : 30 * 2 ^ (p + 1) ≤ 30 * 16 := by omega
+      omega
+    have hpow : 2 ^ (prefixEncodeCopyDistance dc nd p).nbits ≤ 2 ^ 30 := Nat.pow_le_pow_right (by decide) hnb
+    have h30 : (2:Nat) ^ 30 = 1073741824 := by decide
+    have h32 : (2:Nat) ^ 32 = 4294967296 := by decide
+    have h31 : (2:Nat) ^ 31 = 2147483648 := by decide
+    simp only [DistCode.packed, DistCode.extra32]
+    rw [restore_eq_rfc p nd _ _ _ e4 hsym' (by omega) e1 e2 (by omega) ?_ (by omega)]
+    · exact e5
+    · have hm : (2 + ((prefixEncodeCopyDistance dc nd p).sym - nd - 16) / 2 ^ p % 2) ≤ 3 := by omega
+      have := Nat.mul_le_mul hm hpow
+      omega
+
+/-! ## MLEN and variable-length uint8 fields -/
+
+/-- `BrotliEncodeMlen`: for every meta-block length 1..2^24 the (MNIBBLES, MLEN-1) fields
+read back (RFC 7932 section 9.2) to that length: MNIBBLES ∈ {4,5,6}, the value fits in
+4·MNIBBLES bits, and the encoding is minimal (the RFC rejects a zero top nibble when
+MNIBBLES > 4). -/
+theorem mlen_exact (length : Nat) (h1 : 1 ≤ length) (h2 : length ≤ 2 ^ 24) :
+    (encodeMlen length).1 + 1 = length ∧
+    (encodeMlen length).2.1 = 4 * ((encodeMlen length).2.2 + 4) ∧
+    (encodeMlen length).2.2 ≤ 2 ∧
+    (encodeMlen length).1 < 2 ^ (encodeMlen length).2.1 ∧
+    (0 < (encodeMlen length).2.2 → 2 ^ (4 * ((encodeMlen length).2.2 + 3)) ≤ (encodeMlen length).1) := by
+  have p15 : (2:Nat) ^ 15 = 32768 := by decide
+  have p16 : (2:Nat) ^ 16 = 65536 := by decide
+  have p20 : (2:Nat) ^ 20 = 1048576 := by decide
+  have p24 : (2:Nat) ^ 24 = 16777216 := by decide
+  by_cases hone : length = 1
+  · subst hone; decide
+  have hne : length - 1 ≠ 0 := by omega
+  -- the number of nibbles, by range of length-1
+  have key : ∀ mn, (mn = (if log2Floor (length - 1) + 1 < 16 then 16 else log2Floor (length - 1) + 1 + 3) / 4) →
+      encodeMlen length = (length - 1, mn * 4, mn - 4) := by
+    intro mn h; unfold encodeMlen; simp [hone, h]
+  by_cases a : length - 1 < 2 ^ 16
+  · have hk : log2Floor (length - 1) < 16 := (Nat.log2_lt hne).mpr a
+    have := key 4 (by split <;> omega)
+    rw [this]; simp; omega
+  by_cases b : length - 1 < 2 ^ 20
+  · have hk : log2Floor (length - 1) < 20 := (Nat.log2_lt hne).mpr b
+    have hk2 : 16 ≤ log2Floor (length - 1) := (Nat.le_log2 hne).mpr (by omega)
+    have := key 5 (by split <;> omega)
+    rw [this]; simp; omega
+  · have hk : log2Floor (length - 1) < 24 := (Nat.log2_lt hne).mpr (by omega)
+    have hk2 : 20 ≤ log2Floor (length - 1) := (Nat.le_log2 hne).mpr (by omega)
+    have := key 6 (by split <;> omega)
+    rw [this]; simp; omega
+
+/-- `StoreVarLenUint8`: for every n < 256 the emitted fields read back (RFC 7932 section 9.2,
+NBLTYPES-style "1 + variable length" without the +1) to n. -/
+theorem varlen_uint8_exact (n : Nat) (h : n < 256) :
+    (n = 0 → storeVarLenUint8 n = [(1, 0)]) ∧
+    (0 < n → ∃ nb e, storeVarLenUint8 n = [(1, 1), (3, nb), (nb, e)] ∧ nb < 8 ∧ e < 2 ^ nb ∧ 2 ^ nb + e = n) := by
+  constructor
+  · intro h0; simp [storeVarLenUint8, h0]
+  · intro hpos
+    have hne : n ≠ 0 := by omega
+    obtain ⟨hlo, hhi⟩ := log2_bounds n hne
+    refine ⟨log2Floor n, n - 2 ^ log2Floor n, by simp [storeVarLenUint8, hne], ?_, ?_, by omega⟩
+    · have : (2:Nat) ^ 8 = 256 := by decide
+      exact (Nat.log2_lt hne).mpr (by omega)
+    · rw [Nat.pow_succ] at hhi; omega
+
+example : storeVarLenUint8 255 = [(1, 1), (3, 7), (7, 127)] := by decide
+example : encodeMlen 16777216 = (16777215, 24, 2) := by decide
+example : encodeMlen 65536 = (65535, 16, 0) := by decide
+example : encodeMlen 65537 = (65536, 20, 1) := by decide
+
 end BV.Props.C18
